@@ -271,20 +271,39 @@ def _t_worker(batch):
 def random_T_case(rng, cid):
     import spowtd.transmissivity as tm
     n = rng.randint(2, 6)
-    z = sorted(rng.sample(range(-3000, 3000), n))
-    K = [10 ** rng.uniform(-4, 4) for _ in range(n)]
+    if cid % 2:
+        # a knot exactly at level 0 with the conductivity peaking there (a long gentle segment below, a short
+        # steep one above): the integrand has a sharp kink at a break point whose VALUE is zero
+        n = max(n, 3)
+        z = sorted(rng.sample(range(-3000, -100), 1)) + [0] + sorted(rng.sample(range(5, 400), n - 2))
+        K = [10 ** rng.uniform(-4, -1), 10 ** rng.uniform(1, 4)] + [10 ** rng.uniform(-5, -1) for _ in range(n - 2)]
+    else:
+        z = sorted(rng.sample(range(-3000, 3000), n))
+        K = [10 ** rng.uniform(-4, 4) for _ in range(n)]
     tmin = 10 ** rng.uniform(-2, 2)
     T = tm.create_transmissivity_function({"type": "spline", "zeta_knots_mm": [float(v) for v in z], "K_knots_km_d": K,
                                            "minimum_transmissivity_m2_d": tmin})
-    xs = sorted({float(z[0] - 50), float(z[0])} | {round(rng.uniform(z[0], z[-1]), 2) for _ in range(12)} | {float(z[-1])})
+    xs = sorted({float(z[0] - 50), float(z[0])} | {round(rng.uniform(z[0], z[-1]), 2) for _ in range(12)} | {float(z[-1])}
+                | ({round(z[1] + (z[2] - z[1]) * k / 12.0, 3) for k in range(13)} if n >= 3 else set()))
     vals = [float(T(x)) for x in xs]
     arr = T(np.array(xs))
     top = max(abs(v) for v in vals)
     S = 10 ** (7 - max(0, int(math.floor(math.log10(max(top, 1e-9)))) + 1))      # 7 significant digits
     fx = lambda v: int(round(v * S))
+    # segment identity: consecutive levels inside one log-linear segment
+    incr = []
+    lnK = [math.log(k) for k in K]
+    for (x1, v1), (x2, v2) in zip(zip(xs, vals), zip(xs[1:], vals[1:])):
+        for a in range(n - 1):
+            if z[a] <= x1 and x2 <= z[a + 1]:
+                s_ = (lnK[a + 1] - lnK[a]) / (z[a + 1] - z[a])
+                k1 = math.exp(lnK[a] + s_ * (x1 - z[a]))
+                k2 = math.exp(lnK[a] + s_ * (x2 - z[a]))
+                want = (k2 - k1) / s_ if abs(s_) > 1e-12 else k1 * (x2 - x1)
+                incr.append([fx(v2 - v1), fx(want)])
     return {"id": "T%d" % cid, "kind": "mono", "prop": "C15", "v": [fx(v) for v in vals], "tol": 2, "nfloor": 2,
             "floor": fx(tmin), "pairs": [[float(a).hex(), float(b).hex()] for a, b in zip(vals, arr)],
-            "knots": z, "K": K}
+            "incr": incr, "tolI": 4, "knots": z, "K": K}
 
 
 def c15(chk, tier):
@@ -297,6 +316,7 @@ def c15(chk, tier):
         "relative), scalar = array, floor at and below the lowest knot, continuity at knots, monotone. B: random "
         "real parameters over 8 decades judged by TraceSpline.tla. non-trivial = level above a sloping segment")
     emits = run_mc(chk, "t", "MCHydraulics t", **({} if q else {"ZSets": "<- ZSetsB", "Exps": "<- ExpsB"}))
+    emits += run_mc(chk, "t", "MCHydraulics t, sharp kink at a knot at level 0", ZSets="<- ZSetsSharp", Exps="<- ExpsSharp")
     groups = {}
     for e in emits:
         groups.setdefault((tuple(e["z"]), tuple(e["e"])), []).append(e)
@@ -343,6 +363,17 @@ def _grid_worker(batch):
                         msgs["C17"] = "W(%g) - W(%g) = %.12g, integral of specific yield = %.12g" % (
                             grid[i], grid[0], W[i] - W[0], cum[i] - cum[0])
                         break
+            # the same levels given as an integer array (np.arange(...)): the curve is a function of the levels,
+            # not of the dtype they come in
+            if not msgs["C17"] and all(float(g).is_integer() for g in grid):
+                try:
+                    Wi = sr.compute_rise_curve(sy, grid.astype(int), mean_storage_mm=0.0)
+                    Wf = sr.compute_rise_curve(sy, grid, mean_storage_mm=0.0)
+                    if len(Wi) != len(Wf) or np.abs(np.asarray(Wi, dtype=float) - Wf).max() > 1e-9 * scale:
+                        msgs["C17"] = "levels %s as an integer array give %s, as a float array %s" % (
+                            [int(g) for g in grid], [float(v) for v in Wi][:4], [float(v) for v in Wf][:4])
+                except Exception as e:  # noqa
+                    msgs["C17"] = "compute_rise_curve on an integer level array raised %r" % (e,)
             if case["nonneg"] and not msgs["C17"]:
                 W = sr.compute_rise_curve(sy, grid, 0.0)
                 if (np.diff(W) < -1e-12 * scale).any():
